@@ -3,4 +3,4 @@
 From DTN Require Export Proofs.TcpclSentProofs1 Proofs.TcpclSentProofs2 Proofs.TcpclSentProofs3
   Proofs.TcpclSentProofs4 Proofs.TcpclSentProofs5 Proofs.TcpclSentProofs6 Proofs.TcpclSentProofs7
   Proofs.TcpclSentProofs8 Proofs.TcpclSentProofs9 Proofs.TcpclSentProofs10 Proofs.TcpclSentProofs11
-  Proofs.TcpclSentProofs12 Proofs.TcpclSentProofs13 Proofs.TcpclSentProofs14 Proofs.TcpclSentProofs15 Proofs.TcpclSentProofs17.
+  Proofs.TcpclSentProofs12 Proofs.TcpclSentProofs13 Proofs.TcpclSentProofs14 Proofs.TcpclSentProofs15 Proofs.TcpclSentProofs17 Proofs.TcpclSentProofs18.
